@@ -32,9 +32,7 @@ pub fn format_update(key: &str, text: &str, ext: &str) -> Result<String, String>
 }
 
 pub fn server_for(state: &HashMap<String, String>, ext: &str) -> Server {
-    let mut configuration = Configuration::default();
-    configuration.markdown = MarkdownOptions { refs_extension: ext.to_string() };
-    Server::new(ServerConfig { base_path: "/lib".to_string(), state: state.clone(), sequential_ids: Some(true), configuration, lsp_client: LspClient::Unknown })
+    crate::act::server_with(state, ext, true)
 }
 
 pub fn uri_for(key: &str) -> Url {
